@@ -58,7 +58,21 @@ func (c *Criteria) Validate() {
 
 func (c *Criteria) NotUsedName(name string) string {
 	count := c.countWithPrefix(name)
-	return firstFreeName(name, count)
+	candidate := firstFreeName(name, count)
+	for c.isUsed(candidate) {
+		count++
+		candidate = firstFreeName(name, count)
+	}
+	return candidate
+}
+
+func (c *Criteria) isUsed(id string) bool {
+	for _, cr := range *c {
+		if cr.Id == id {
+			return true
+		}
+	}
+	return false
 }
 
 func firstFreeName(name string, count int) string {
